@@ -44,9 +44,12 @@ def cases(tier):
                     "req": "det-b09 " + o["flags"] + f" {o['storage']} " + hexs(o["procname"].encode()) + " " + hexs(t.encode())})
     # one size map shared by programs that DIM the same string names under different default sizes: half of the
     # worker processes pass ONE options object to every call (a tool that writes into its caller's options shows)
-    for sizes in ([["A1$", 10]], [["K$", 33], ["B$", 200]], [["A$()", 40]]):
+    for sizes in ([["A1$", 10]], [["K$", 33], ["B$", 200]], [["A$()", 40]],
+                  [["A$()", 40], ["T$()", 12], ["Q$()", 7], ["ZZ$()", 90]], [["T$()", 12], ["N$", 9], ["A$()", 12], ["K$", 9], ["B$", 70]]):
         for text in ("10 DIM N$, T$(4)\n20 N$=\"X\":T$(1)=\"Y\"", "10 DIM N$, T$(4), B$\n20 B$=N$+T$(2)",
-                     "10 N$=\"A\":Q$(3)=N$", "10 DIM A$(3), K$\n20 A$(1)=K$"):
+                     "10 N$=\"A\":Q$(3)=N$", "10 DIM A$(3), K$\n20 A$(1)=K$",
+                     "10 DIM A$(3), T$(4), Q$(2), ZZ$(1), N$, K$, B$\n20 A$(1)=\"X\":T$(1)=\"Y\":Q$(1)=\"Z\":ZZ$(0)=N$+K$+B$",
+                     "10 DIM Q$(2), B$, T$(4)\n20 DIM ZZ$(1), K$, A$(3)\n30 T$(1)=Q$(1)+A$(1)+ZZ$(1)"):
             for storage in (80, 32, 255):
                 o = {"flags": "1101110", "storage": storage, "procname": "program", "sizes": sizes}
                 out.append({"fmt": "b09", "kind": "det", "text": text, "opts": o,
